@@ -22,7 +22,7 @@ GROUPS = {
     "Parser": ("_parser.py", ["_span_to_tok", "_span_to_str_or_int", "_get_group_indices",
                               "_flush_op_by_precedence", "_postfix_from_infix", "_maybe_multiaxis", "expression_from_string",
                               "DLTypeDimensionExpression.from_multiaxis_literal", "@_VALID_IDENTIFIER_RX"]),
-    "Shape": ("_tensor_type_base.py", ["TensorTypeBase.__init__", "TensorTypeBase._parse_shape_string", "TensorTypeBase.__class_getitem__"]),
+    "Shape": ("_tensor_type_base.py", ["TensorTypeBase.__class_getitem__"]),
     "Expand": ("_dltype_context.py", ["_ConcreteType.tensor_arg_name", "DLTypeContext.__init__"]),
     "Hints": ("_core.py", ["DLTypeAnnotation.from_hint", "_resolve_types", "_resolve_value", "_maybe_get_type_hints", "_maybe_get_signature"]),
     "Decorate": ("_core.py", ["dltyped", "dltyped_namedtuple", "dltyped_dataclass"]),
